@@ -53,7 +53,7 @@ _EFFECT = ["view", "parent", "other_collections", "other_parents", "is_wrapper",
            "subtree_same_ir", "root_ir", "parents", "target_ir_fixed", "elements_are_blocks", "not_pending",
            "events_add_all", "field_name", "value_kind", "unlinked", "linked", "is_list", "other_lists",
            "is_module", "list_effect", "ir_of_moved", "ir_of_unmoved", "card",
-           "returned_a_member", "shrinks", "empty"]
+           "returned_a_member", "shrinks", "empty", "index_is_pos"]
 _CACHE = ["wf_cache_I1", "wf_cache_I2", "uuids_typed", "uuids_distinct_where_attached", "subtree_registered",
           "old_entries_kept_or_overwritten_by_subtree", "new_entries_are_subtree", "exactly_subtree_removed",
           "other_entries_unchanged", *_RELM, "rel_interval", "rel_block", "rel_section", "rel_symbol",
@@ -85,6 +85,8 @@ FOCUS = {
 def focus(clause):
     if clause in FOCUS:
         return FOCUS[clause]
+    if clause.startswith("raises.") or clause == "index_is_pos":
+        return _EFFECT + _RELM
     if clause in ("callpre.distinct_uuids_in_subtree", "callpre.subtree_registered"):
         return _EFFECT + _CACHE
     if clause == "callpre.uuids_distinct_where_attached":
